@@ -103,6 +103,10 @@ def relevant(pid, clause, prog):
         return True      # model histories with a refused assignment: the fresh process never makes the refused call
     if pid == 'C18' and prog.get('meta', {}).get('kind') == 'foreign' and clause in ('C07.RefResolves', 'C07.RefIsTarget'):
         return True      # "every ... reference ... appears in exactly the logical file it was added to"
+    if pid == 'C14' and prog.get('meta', {}).get('kind') == 'afterdecorated' and clause in ('C15.Writable', 'C17.FlagDiscipline'):
+        return True      # the same build is written by the fresh process: a refusal here is process history
+    if pid == 'C06' and prog.get('meta', {}).get('kind') == 'identfile' and clause[:3] in ('C04', 'C05', 'C12'):
+        return True      # the IDENT fields of set / object components are judged where they are decoded: by the component grammar
     if pid == 'C12' and prog.get('meta', {}).get('fringe') and clause[:3] in ('C01', 'C02', 'C03', 'C04', 'C05', 'C07', 'C08', 'C09', 'C16'):
         return True
     return False
